@@ -332,6 +332,11 @@ class Interp:
             ex_ = make_exc(st["cls"], st.get("msg", "user raise at " + pos) if "size" not in st else ("\u65e5" if st.get("uni") else '"\n' if st.get("esc") else "E") * st["size"], st.get("args"))
             self.w.rec("user-raise", pos=pos, cls=st["cls"], inv_level=isinstance(ex_, self.exc.InvocationError))
             raise ex_
+        if op == "pause":
+            # plain user code that takes time between two durable calls
+            self.w.rec("pause", pos=pos, s=st["s"])
+            self.w.sim.sleep(st["s"], True, "user-code")
+            return ["pause"]
         if op == "item":
             return canon(item)
         meth = getattr(self, "op_" + op)
@@ -461,16 +466,17 @@ class Interp:
         cfg = C.StepConfig(retry_strategy=self._retry_strategy(pos, st.get("retry")), step_semantics=sem, serdes=self._fserdes(st, pos))
 
         def fn(step_ctx):
-            return self._user_fn(pos, st.get("fn", {}), "step", step_ctx.logger)
+            # (getattr: a decorated function may be handed something else than a StepContext by a broken decorator)
+            return self._user_fn(pos, st.get("fn", {}), "step", getattr(step_ctx, "logger", None))
 
         plain = not any(k in st for k in ("retry", "sem", "fserdes")) and not any(
             a["do"] == "raise" for a in st.get("fn", {}).get("attempts", []))
         if st.get("deco"):
             # @durable_step: the operation takes its name from the decorated function
-            def named(step_ctx):
+            def named(step_ctx, tag=None):  # the decorator binds extra arguments; this one has a default
                 return fn(step_ctx)
             named.__name__ = pos
-            bound = self.ctxmod.durable_step(named)()
+            bound = self.ctxmod.durable_step(named)(pos)
             return ctx.step(bound) if plain else ctx.step(bound, config=cfg)
         if plain:
             return ctx.step(fn, name=pos)  # no StepConfig at all: the SDK's defaults
